@@ -13,7 +13,7 @@
 (*   ImplSelAxis      RectPartition.__getitem__ (un-stepped hull trick)     *)
 (*   ImplByAxisItem   RectPartition.byaxis via [0 / :] indexing + squeeze   *)
 (*                                                                         *)
-(* It mirrors the CURRENT tree, including two open defects (marked !).     *)
+(* It mirrors the CURRENT tree, including one open defect (marked !).      *)
 (* Refinement statements checked by TLC are at the end.                    *)
 (***************************************************************************)
 EXTENDS PartSem
@@ -23,10 +23,9 @@ ErrAxis == Axis(NoneQ, NoneQ, <<>>)
 (* ---- normalized_nodes_on_bdry as consumed by uniform_partition's loop ---- *)
 (* form "nested": [(L, R)] per axis   -> the loop unpacks (L, R)                              *)
 (* form "bool"  : L (= R)             -> (L, L)                                               *)
-(* form "flat"  : (L, R) for a 1-d partition: the normaliser returns the LIST [L, R] and the  *)
-(*   per-axis zip hands only its first entry to axis 0, whose unpacking fails, so the       ! *)
-(*   completion arithmetic sees (L, L); the grid placement later receives (L, R) unchanged.  *)
-CompletionFlags(form, L, R) == IF form = "flat" THEN <<L, L>> ELSE <<L, R>>
+(* form "flat"  : (L, R) for a 1-d partition: the normaliser returns [(L, R)] (one pair for  *)
+(*   the single axis, repo commit 8fd187d), so completion and node placement both see (L, R) *)
+CompletionFlags(form, L, R) == <<L, R>>
 
 \* np.isclose / the 1e-5 integrality test, abstracted: tolerance << threshold << lattice spacing
 Close(x, y) == QLe(QAbs(QSub(x, y)), <<1, 65536>>)
@@ -120,10 +119,7 @@ ImplByAxisItem(part, it) ==
   IN  Squeeze(sub, {k \in 0..(nd - 1) : k \notin sel})
 
 (* ---- refinement statements (C [= A) ------------------------------------------------------ *)
-\* the cells in which the current tree is known to leave the reference (open defects, see above)
-KnownFlatCell(args, form, L, R) == form = "flat" /\ L # R /\ ~IsNoneQ(args.h)
-RefinesUniform(args, form, L, R) ==
-  KnownFlatCell(args, form, L, R) \/ ImplUniform(args, form, L, R) = UniformPartitionAxis(args, L, R)
+RefinesUniform(args, form, L, R) == ImplUniform(args, form, L, R) = UniformPartitionAxis(args, L, R)
 RefinesIndex(ax, p) ==
   /\ ImplIndexAxis(ax, p, FALSE) = QI(Index0(ax, p))
   /\ (Degenerate(ax) \/ ImplIndexAxis(ax, p, TRUE) = IndexF(ax, p))
